@@ -148,7 +148,7 @@ def varHeader (o : Output) (k : VarKind) : File :=
   match k with
   | .hydro => [recI [o.ncpu], recI [nvarOf o k], recI [o.ndim], recI [o.levelmax], recI [o.nboundary], recD [o.gamma]]
   | .grav => [recI [o.ncpu], recI [nvarOf o k], recI [o.levelmax], recI [o.nboundary]]
-  | .rt => [recI [o.ncpu], recI [nvarOf o k], recI [o.ndim], recI [o.levelmax], recI [o.nboundary], recD [o.gamma]]
+  | .rt => [recI [o.ncpu], recI [nvarOf o k], recI [o.ndim], recI [o.levelmax], recI [o.nboundary], recD [o.gamma + 1/4]]
 
 /-- one (level, domain) block of a hydro / grav / rt file: level, ncache, then per child cell
     one record per variable; ghost copies carry poisoned values -/
